@@ -251,10 +251,11 @@ impl PropImpl for C10 {
     fn from_enum(&self, _ctx: &mut Ctx, _tier: Tier, _space: usize, index: u64) -> Case {
         enum_case(index)
     }
-    fn decode(&self, _ctx: &mut Ctx, t: &mut Tape) -> Case {
+    fn decode(&self, ctx: &mut Ctx, t: &mut Tape) -> Case {
         let o = RelOpts { max_layout: Layout::L2, ..Default::default() };
         let (mut field, mut text, layout) = rel::gen_field(t, &o);
-        if t.chance(1, 150) && field.items.iter().any(|i| matches!(i, rel::Item::Entry(_))) {
+        let big = t.chance(1, 400);
+        if big && !ctx.light && field.items.iter().any(|i| matches!(i, rel::Item::Entry(_))) {
             // a very long field (hundreds to thousands of entries, tens of kilobytes): the same items again and again
             let n = *t.pick(&[300usize, 1600, 3000]);
             let base: Vec<rel::Item> = field.items.iter().filter(|i| matches!(i, rel::Item::Entry(_) | rel::Item::Substvar(_))).cloned().collect();
